@@ -660,3 +660,122 @@ Proof.
       unfold add_commit. unfold cflags_okb in H. rewrite H. simpl. discriminate.
   - exists t', e. split; auto. apply add_full_err_unchanged in E. tauto.
 Qed.
+
+(* ------------------------------------------------------------------ *)
+(* removals                                                            *)
+(* ------------------------------------------------------------------ *)
+Lemma remove_first_id_split id ds :
+  match find (fun d => (d_id d =? id)%N) ds with
+  | None => remove_first_id id ds = ds /\ Forall (fun x => d_id x <> id) ds
+  | Some d => exists a b, ds = a ++ d :: b /\ Forall (fun x => d_id x <> id) a /\ d_id d = id /\
+                          remove_first_id id ds = a ++ b
+  end.
+Proof.
+  induction ds as [|x ds IH]; simpl; auto.
+  destruct (N.eqb_spec (d_id x) id) as [E|E].
+  - exists [], ds. simpl. auto.
+  - destruct (find _ ds) as [d|].
+    + destruct IH as (a & b & -> & Ha & Hd & Hr). exists (x :: a), b. simpl. rewrite Hr. auto.
+    + destruct IH as [Hr Hf]. rewrite Hr. auto.
+Qed.
+
+Lemma release_remove_exact t p :
+  match from_public t (p_id p) with
+  | None => release_remove t p = (t, Err EINVAL)
+  | Some d => exists a b, t_dists t = a ++ d :: b /\ Forall (fun x => d_id x <> p_id p) a /\ d_id d = p_id p /\
+                          release_remove t p = (set_dists t (a ++ b), Ok tt)
+  end.
+Proof.
+  unfold release_remove, from_public. assert (H := remove_first_id_split (p_id p) (t_dists t)).
+  destruct (find _ (t_dists t)) as [d|]; auto.
+  destruct H as (a & b & H1 & H2 & H3 & H4). exists a, b. rewrite H4. auto.
+Qed.
+
+Lemma remove_by_depth_exact t depth :
+  let ty := depth_type (t_levels t) depth in
+  if (ty =? TYPE_NONE)%N then remove_by_depth t depth = (t, Err EINVAL)
+  else exists ds, remove_by_depth t depth = (set_dists t ds, Ok tt) /\
+                  ds = filter (fun d => negb (d_unique d =? ty)%N) (t_dists t) /\
+                  forall d, In d ds <-> In d (t_dists t) /\ d_unique d <> ty.
+Proof.
+  intros ty. unfold remove_by_depth. fold ty. destruct (ty =? TYPE_NONE)%N; auto.
+  eexists. split; [reflexivity|]. split; auto.
+  intros d. rewrite filter_In. destruct (N.eqb_spec (d_unique d) ty); simpl; intuition congruence.
+Qed.
+
+(* ------------------------------------------------------------------ *)
+(* refresh: the structure follows the objects                          *)
+(* ------------------------------------------------------------------ *)
+Definition wf_idist (d : idist) : Prop :=
+  length (d_indexes d) = d_nb d /\ length (d_values d) = (d_nb d * d_nb d)%nat /\
+  (forall l, d_diff d = Some l -> length l = d_nb d).
+
+Lemma lookup_sound tobjs unique dt i idx o :
+  lookup tobjs unique dt i idx = Some o ->
+  In o tobjs /\
+  (if use_os_index unique then o_type o = unique /\ o_os o = (idx mod two32)%N
+   else o_type o = match dt with Some l => nth i l TYPE_NONE | None => unique end /\ o_gp o = idx).
+Proof.
+  unfold lookup, find_by_os, find_by_gp. destruct (use_os_index unique); intros H; apply find_some in H as [Hin H];
+    apply andb_true_iff in H as [H1 H2]; apply N.eqb_eq in H1, H2; auto.
+Qed.
+
+Lemma lookup_all_length tobjs unique dt : forall idxs i, length (lookup_all tobjs unique dt i idxs) = length idxs.
+Proof. induction idxs; intros; simpl; auto. Qed.
+
+Lemma lookup_all_live tobjs unique dt : forall idxs i,
+  Forall (fun r => forall o, r = Some o -> In o tobjs) (lookup_all tobjs unique dt i idxs).
+Proof.
+  induction idxs as [|x r IH]; intros i; simpl; constructor; auto.
+  intros o H. apply lookup_sound in H. tauto.
+Qed.
+
+Lemma pick_Forall {A} (P : A -> Prop) keep : forall l, Forall P l -> Forall P (pick keep l).
+Proof.
+  induction keep as [|k ks IH]; intros l H; simpl; auto.
+  destruct l as [|x l]; auto. inversion H; subst. destruct k; auto.
+Qed.
+
+Lemma pick_some_live tobjs (objs : list oref) :
+  Forall (fun r => forall o, r = Some o -> In o tobjs) objs ->
+  Forall (fun r => exists o, r = Some o /\ In o tobjs) (pick (map is_some objs) objs).
+Proof.
+  induction 1 as [|r l Hr Hl IH]; simpl; auto. destruct r as [o|]; simpl; auto.
+  constructor; auto. exists o; auto.
+Qed.
+
+(* dist_follow_objects, one structure *)
+Lemma refresh_one_follow tobjs d :
+  d_valid d = false -> wf_idist d ->
+  let nb := d_nb d in
+  let objs := lookup_all tobjs (d_unique d) (d_diff d) O (d_indexes d) in
+  let keep := map is_some objs in
+  Forall (fun r => forall o, r = Some o -> In o tobjs) objs /\
+  ((countb keep < 2)%nat -> refresh_one tobjs d = None) /\
+  (countb keep = nb -> (2 <= nb)%nat ->
+     refresh_one tobjs d = Some (IDist (d_name d) (d_id d) (d_kind d) (d_unique d) (d_diff d) nb (d_indexes d) objs (d_values d) true)) /\
+  ((2 <= countb keep)%nat -> (countb keep < nb)%nat ->
+     refresh_one tobjs d = Some (IDist (d_name d) (d_id d) (d_kind d) (d_unique d) (option_map (pick keep) (d_diff d))
+                                       (countb keep) (pick keep (d_indexes d)) (pick keep objs)
+                                       (submatrix (sel_from keep O) nb (d_values d)) true)
+     /\ Forall (fun r => exists o, r = Some o /\ In o tobjs) (pick keep objs)).
+Proof.
+  intros Hv (Hi & Hvals & Hd) nb objs keep.
+  assert (Hlo : length objs = nb) by (unfold objs; rewrite lookup_all_length; auto).
+  assert (Hfi : firstn nb (d_indexes d) = d_indexes d) by (unfold nb; rewrite <- Hi; apply firstn_all).
+  assert (Hle := countb_le keep). assert (Hlk : length keep = nb) by (unfold keep; rewrite map_length; auto).
+  split; [apply lookup_all_live|].
+  unfold refresh_one. rewrite Hv. fold nb. rewrite Hfi. fold objs. fold keep.
+  repeat split.
+  - intros Hc. replace (nb - (nb - countb keep))%nat with (countb keep) by lia.
+    destruct (countb keep <? 2)%nat eqn:E; auto. apply Nat.ltb_ge in E. lia.
+  - intros Hc H2. rewrite Hc, Nat.sub_diag, Nat.sub_0_r.
+    destruct (nb <? 2)%nat eqn:E; [apply Nat.ltb_lt in E; lia|]. reflexivity.
+  - replace (nb - (nb - countb keep))%nat with (countb keep) by lia.
+    destruct (countb keep <? 2)%nat eqn:E; [apply Nat.ltb_lt in E; lia|].
+    destruct (nb - countb keep =? 0)%nat eqn:E0; [apply Nat.eqb_eq in E0; lia|]. simpl.
+    assert (Hs := restrict_all_spec objs (Some (d_indexes d)) (d_diff d) (d_values d) nb Hlo).
+    simpl in Hs. fold keep in Hs. rewrite Hs; auto.
+    intros l Hl; inversion Hl; subst; auto.
+  - apply pick_some_live. apply lookup_all_live.
+Qed.
